@@ -433,6 +433,9 @@ def dtype_rule(prog: Program, res: Result, tree: Optional[ast.AST] = None) -> in
 WDEG_TABLE = {
     ("ktensor", "weights"): ["full", "double", "to_tensor", "innerprod", "mttkrp", "ttv", "mask", "norm"],
     ("ttensor", "core"): ["full", "double", "to_tensor", "innerprod", "mttkrp", "ttv", "ttm", "norm", "reconstruct"],
+    # the factor list as a whole: an operation that applies every factor once is of degree 1 PER MODE (scaling every factor by c scales the
+    # result by c per mode); the Gram route of the norm is sqrt(<core x {U'U}, core>) = sqrt(degree 2) per mode
+    ("ttensor", "factor_matrices"): ["full", "double", "to_tensor", "norm"],
     ("tensor", "data"): ["ttv", "mttkrp", "innerprod", "norm", "contract", "ttt", "scale", "to_tenmat", "double"],
     ("sptensor", "vals"): ["norm", "contract", "scale", "to_sptenmat", "double", "mask", "extract"],
 }
@@ -447,7 +450,7 @@ def wdeg(prog: Program, res: Result) -> None:
         for n in names:
             fi = prog.func(f"{cls}.{cls}.{n}")
             d = dg.method_degree(n)
-            desc = f"the result is homogeneous of degree 1 in self.{field}"
+            desc = f"the result is homogeneous of degree 1 in self.{field}" + (" (per mode)" if field == "factor_matrices" else "")
             if d == Fraction(1) or d == D.POLY:
                 res.ok("WDEG", fi.short, desc, prog.loc(fi))
             elif d is None:
